@@ -577,6 +577,18 @@ fn run_oneshot(ctx: &RunCtx) -> RunOut {
     out
 }
 
+/// The history exploration of this module, keeping only violations whose key contains one of
+/// `keep` (C07 judges the same executions by its poll-interval clauses).
+pub fn run_filtered(ctx: &RunCtx, max_len: usize, bounded: bool, keep: &[&str]) -> RunOut {
+    let mut out = run_one(ctx, max_len, bounded);
+    if let Some(v) = out.violation.as_ref() {
+        if !keep.iter().any(|k| v.key.contains(k)) {
+            out.violation = None;
+        }
+    }
+    out
+}
+
 fn parts(tier: Tier) -> Vec<PartDef> {
     let mut v = vec![PartDef::new(
         "oneshot-durability",
